@@ -15,7 +15,9 @@ KRS = [dict(exps=(1.0, 1.0, 1.0), res=(0.0, 0.1, 0.0), ends=(1.0, 1.0, 1.0)),
        dict(exps=(3.7, 2.0, 1.5), res=(0.2, 0.1, 0.0), ends=(1.0, 1.0, 0.6)),
        dict(exps=(1.0, 6.0, 2.0), res=(0.0, 0.1, 0.1), ends=(0.5, 1.0, 1.0)),
        # mobile water (Sw above its residual): the water term of the mobility is non-zero
-       dict(exps=(2.0, 1.5, 2.0), res=(0.1, 0.1, 0.05), ends=(0.9, 0.7, 1.0), sw=0.3)]
+       dict(exps=(2.0, 1.5, 2.0), res=(0.1, 0.1, 0.05), ends=(0.9, 0.7, 1.0), sw=0.3),
+       # a span where NO phase flows (gas end-point 0, oil immobile below So = 0.6): the integral is flat there
+       dict(exps=(2.0, 2.0, 2.0), res=(0.6, 0.1, 0.0), ends=(1.0, 1.0, 0.0))]
 RHOS = [{"rho_o0": 141.5 / (45 + 131.5), "rho_g0": 1.03e-3, "rho_w0": 1.0},
         {"rho_o0": 52.0, "rho_g0": 0.06, "rho_w0": 63.0}]
 
@@ -77,6 +79,10 @@ def evaluate(case):
                       f"documented total mobility by {err:.3g} of its range (at p={p[k]:.6g}: {m[k]!r} vs {want[k]!r})",
                       case=case, observed=float(m[k]), expected=float(want[k]), tol=1e-12))
     pos = lam[1:] + lam[:-1] > 0
+    if np.any(np.diff(m)[~pos] != 0):
+        k = int(np.flatnonzero(~pos & (np.diff(m) != 0))[0])
+        viol.append(V("flat-where-immobile", f"pseudopressure changes from p={p[k]:.6g} to {p[k + 1]:.6g} "
+                      f"({m[k]!r} -> {m[k + 1]!r}) although the total mobility is exactly 0 on that interval", case=case))
     if np.any(np.diff(m)[pos] <= 0):
         k = int(np.flatnonzero(pos & (np.diff(m) <= 0))[0])
         viol.append(V("strictly-increasing", f"pseudopressure does not increase from p={p[k]:.6g} to {p[k + 1]:.6g} "
